@@ -106,9 +106,35 @@ func registerHTTP(e *Engine) {
 	reg("(*net/http.Request).Context", func(in *Interp, _ *frame, fn *ssa.Function, args []Value, pos tokenPos) Value {
 		return IfaceV{T: types.Typ[types.UnsafePointer], V: OpaqueV{Tag: "ctx", Data: &ctxModel{}}}
 	})
+	reg("net.SplitHostPort", func(in *Interp, _ *frame, fn *ssa.Function, args []Value, pos tokenPos) Value {
+		s := args[0].(*Str)
+		ok := in.uf("net.SplitHostPort.ok", 0, in.strTerms(s)...)
+		if in.branch(ok) {
+			host := in.ufStr("net.SplitHostPort.host", 0, s.Cap(), nil, []*Str{s}, nil)
+			port := in.ufStr("net.SplitHostPort.port", 0, s.Cap(), nil, []*Str{s}, nil)
+			return TupleV{E: []Value{host, port, IfaceV{}}}
+		}
+		return TupleV{E: []Value{in.str.Const(""), in.str.Const(""), in.newError(in.str.Const("missing port in address"))}}
+	})
 	// body decoding: the decoder havocs its target
 	reg("net/http.MaxBytesReader", func(in *Interp, _ *frame, fn *ssa.Function, args []Value, pos tokenPos) Value { return args[1] })
-	reg("io.TeeReader", func(in *Interp, _ *frame, fn *ssa.Function, args []Value, pos tokenPos) Value { return args[0] })
+	reg("io.TeeReader", func(in *Interp, _ *frame, fn *ssa.Function, args []Value, pos tokenPos) Value {
+		in.ghost["tee:writer"] = args[1]
+		return args[0]
+	})
+	reg("github.com/BurntSushi/toml.DecodeReader", func(in *Interp, caller *frame, fn *ssa.Function, args []Value, pos tokenPos) Value {
+		meta := in.zero(fn.Signature.Results().At(0).Type())
+		in.teeBody(caller, pos)
+		if v, ok := in.ghost["body:valid"]; ok && v.(Sc).T.IsFalse() {
+			return TupleV{E: []Value{meta, in.newError(in.str.Const("toml: parse error"))}}
+		}
+		if v, ok := in.ghost["body:valid"]; ok && !v.(Sc).T.IsTrue() {
+			if !in.branch(v.(Sc).T) {
+				return TupleV{E: []Value{meta, in.newError(in.str.Const("toml: parse error"))}}
+			}
+		}
+		return TupleV{E: []Value{meta, IfaceV{}}}
+	})
 	reg("encoding/json.NewDecoder", func(in *Interp, _ *frame, fn *ssa.Function, args []Value, pos tokenPos) Value {
 		o := in.newObj(OpaqueV{Tag: "jsondec"}, nil, "json.Decoder")
 		o.heap = true
@@ -117,6 +143,26 @@ func registerHTTP(e *Engine) {
 	reg("(*encoding/json.Decoder).Decode", func(in *Interp, _ *frame, fn *ssa.Function, args []Value, pos tokenPos) Value {
 		iv := args[1].(IfaceV)
 		dp := iv.V.(PtrV)
+		in.teeBody(nil, pos)
+		if fields, ok := in.ghost["body:json"]; ok {
+			valid := in.ghost["body:valid"].(Sc).T
+			if !in.branch(valid) {
+				return in.newError(in.str.Const("json: cannot decode request body"))
+			}
+			cur := in.load(dp, pos).(*StructV)
+			st := iv.T.Underlying().(*types.Pointer).Elem().Underlying().(*types.Struct)
+			out := &StructV{F: append([]Value{}, cur.F...)}
+			mv := fields.(MapV)
+			for i := 0; i < st.NumFields(); i++ {
+				for _, e := range mv.m.entries {
+					if k, isC := e.key.(*Str).Concrete(); isC && k == st.Field(i).Name() {
+						out.F[i] = e.val.(IfaceV).V
+					}
+				}
+			}
+			in.store(dp, out, pos)
+			return IfaceV{}
+		}
 		if !in.branch(Sc{in.drawBV("bool", 0)}.T) {
 			return in.newError(in.str.Const("json: cannot decode request body"))
 		}
@@ -175,4 +221,25 @@ func (in *Interp) havoc(v Value, objT types.Type, ptrT types.Type) Value {
 		}
 	}
 	return out
+}
+
+// teeBody copies the request body text into the writer of a preceding io.TeeReader.
+func (in *Interp) teeBody(caller *frame, pos tokenPos) {
+	w, ok := in.ghost["tee:writer"]
+	if !ok {
+		return
+	}
+	delete(in.ghost, "tee:writer")
+	txt, ok := in.ghost["body:text"]
+	if !ok {
+		return
+	}
+	if iv, isI := w.(IfaceV); isI {
+		if p, isP := iv.V.(PtrV); isP && !p.IsNil() {
+			if o, isO := in.load(p, pos).(OpaqueV); isO && o.Tag == "bytes.Buffer" {
+				bm := o.Data.(*bufModel)
+				bm.s = in.str.Concat(bm.s, txt.(*Str))
+			}
+		}
+	}
 }
